@@ -261,6 +261,9 @@ def check_c11(tier):
         raise Infra("negative control failed for Trace_CborEnc: %s" % rj)
     rep.add("negative_control", corrupted_records_rejected=len(expect))
     rep.assumptions = ["array/map counts passed to the encoder are non-negative ints", "on a duplicate-key refusal any prefix of the canonical emission may already have been written"]
+    # instances of tens of MiB (thresholds in buffering / chunking code): Trace_Huge
+    from huge_checks import huge
+    huge(rep, "C11", "cborenc")
     return rep.finish()
 
 
@@ -371,6 +374,9 @@ def check_c12(tier):
     # calls on independent objects running in parallel do not interfere (Trace_Purity, race detector)
     from purity_checks import parallel_cold
     parallel_cold(rep, "C12", "cbor")
+    # instances of tens of MiB (thresholds in buffering / chunking code): Trace_Huge
+    from huge_checks import huge
+    huge(rep, "C12", "cbordec")
     return rep.finish()
 
 
